@@ -290,6 +290,8 @@ pub struct Ev<'a> {
     /// (used to collapse bound(...) continuation flags where they cannot influence what is analysed)
     pub assume_true_suffix: Vec<String>,
     /// forks taken so far by this evaluator; beyond `fork_budget` evaluation stops (fail closed)
+    /// values returned by calls of functions outside the crate (by last path segment), e.g. a parsed argument list
+    pub ext_vals: std::collections::HashMap<String, Val>,
     pub forks: std::cell::Cell<usize>,
     pub calls: std::cell::Cell<usize>,
     pub trace: bool,
@@ -317,7 +319,7 @@ fn path_str(p: &syn::Path) -> Vec<String> {
 
 impl<'a> Ev<'a> {
     pub fn new(ix: &'a Index) -> Self {
-        Ev { ix, cur_file: Default::default(), unsupported: Default::default(), push_fns: vec![], stops: vec![], max_depth: 12, open_at_top: Default::default(), inner_unroll: None, stop_vals: Default::default(), assume_true_suffix: vec![], forks: Default::default(), calls: Default::default(), trace: std::env::var("GENLINT_TRACE").is_ok(), fork_budget: std::env::var("GENLINT_FORK_BUDGET").ok().and_then(|s| s.parse().ok()).unwrap_or(60_000) }
+        Ev { ix, cur_file: Default::default(), unsupported: Default::default(), push_fns: vec![], stops: vec![], max_depth: 12, open_at_top: Default::default(), inner_unroll: None, stop_vals: Default::default(), assume_true_suffix: vec![], ext_vals: Default::default(), forks: Default::default(), calls: Default::default(), trace: std::env::var("GENLINT_TRACE").is_ok(), fork_budget: std::env::var("GENLINT_FORK_BUDGET").ok().and_then(|s| s.parse().ok()).unwrap_or(60_000) }
     }
     fn site(&self, sp: proc_macro2::Span) -> String {
         format!("{}:{}", self.cur_file.borrow(), sp.start().line)
@@ -1339,6 +1341,7 @@ impl<'a> Ev<'a> {
             }
             syn::Expr::Field(fe) => {
                 st.events.push(Event::Note(format!("field-assign {}", left.to_token_stream())));
+                st.events.push(Event::Note(format!("assigned-value {} := {}", left.to_token_stream().to_string().replace(' ', ""), self.deref(st, &v).short().chars().take(60).collect::<String>())));
                 // `local.field = v` on a struct value held by a local variable
                 if let syn::Expr::Path(p) = &*fe.base {
                     if let Some(id) = p.path.get_ident() {
@@ -1355,6 +1358,7 @@ impl<'a> Ev<'a> {
                 // `place[index] = v`: recorded like a field assignment, the index spelt by its value
                 let idx = self.eval_expr(st.clone(), &ie.index).into_iter().find_map(|(_, fl)| if let Flow::Val(v) = fl { Some(v.short()) } else { None }).unwrap_or_else(|| ie.index.to_token_stream().to_string());
                 st.events.push(Event::Note(format!("field-assign {}[{}]", ie.expr.to_token_stream(), idx)));
+                st.events.push(Event::Note(format!("assigned-value {}[{}] := {}", ie.expr.to_token_stream().to_string().replace(' ', ""), idx, self.deref(st, &v).short().chars().take(60).collect::<String>())));
                 let _ = v;
             }
             _ => self.unsup("assignment target", left.span()),
@@ -1740,6 +1744,7 @@ impl<'a> Ev<'a> {
                     r.extend(self.call_fn(s, &f, None, vs));
                     continue;
                 }
+                if let Some(v) = self.ext_vals.get(&segs[0]) { r.push((s, Flow::Val(v.clone()))); continue; }
                 let mut s = s;
                 s.events.push(Event::Note(format!("extcall {}({})", segs[0], vs.iter().map(|a| a.short().chars().take(60).collect::<String>()).collect::<Vec<_>>().join(", "))));
                 r.push((s, Flow::Val(Val::opaque(format!("call {}", segs[0]), vs))));
